@@ -33,7 +33,8 @@ type vRegistrant struct {
 	unregister func()
 	tick       chan time.Time
 	lease      int64
-	ticked     bool // had a heartbeat since the clock last moved
+	ticked     bool  // had a heartbeat since the clock last moved
+	idle       int64 // virtual seconds since its registration / last heartbeat
 }
 
 func (r *vRegistrant) lapsed() bool {
@@ -59,7 +60,8 @@ func VerifEphemeral(arg string) {
 	for step := 0; step < steps; step++ {
 		tag := string(rune('1' + step))
 		who := regs[vChoose("registrant_"+tag, 2)]
-		switch vChoose("event_"+tag, 4) {
+		ev := vChoose("event_"+tag, 4)
+		switch ev {
 		case 0: // register
 			if who.active {
 				continue
@@ -81,6 +83,7 @@ func VerifEphemeral(arg string) {
 			}
 			who.lease = m.kv[key].lease
 			who.ticked = true
+			who.idle = 0
 		case 1: // the registrant's heartbeat fires
 			if !who.active {
 				continue
@@ -95,9 +98,11 @@ func VerifEphemeral(arg string) {
 			}
 			who.ticked = true
 		case 2: // time passes (possibly longer than the TTL: a paused process)
-			m.advance(vInt64("elapsed_"+tag, 1, 30))
+			d := vInt64("elapsed_"+tag, 1, 30)
+			m.advance(d)
 			for _, r := range regs {
 				r.ticked = false
+				r.idle += d
 			}
 		case 3: // deregister
 			if !who.active {
@@ -114,6 +119,11 @@ func VerifEphemeral(arg string) {
 			if r.active && r.lapsed() {
 				r.active = false // notified: its expiry channel is closed
 				vCover("lapse-notified", true)
+				// a registration only lapses after a pause of at least the heartbeat (= the lease TTL)
+				vAssert("C26/no-lapse-without-a-pause-of-a-full-heartbeat", r.idle >= int64(heartbeat/time.Second))
+			}
+			if r.active && r.ticked && ev == 1 && r == who {
+				r.idle = 0 // its heartbeat went through
 			}
 			if r.active && r.ticked {
 				believers++
